@@ -241,9 +241,16 @@ def run(ctx):
         if v is not None:
             resp = unparse(v.value) if isinstance(v, ast.Attribute) and v.attr == "offset" else None
             ok = resp is not None and ("%s.offset == OFFSET_NOT_COMMITTED" % resp, False) in fh[n.id]
+            deps = sorted({norm(t.stmt.test) for t, lab in ch.control_deps_transitive(n.id) if t.kind == "test"})
+            allowed = {"%s.offset == OFFSET_NOT_COMMITTED" % resp, "%s.offset != OFFSET_NOT_COMMITTED" % resp,
+                       "OFFSET_NOT_COMMITTED == %s.offset" % resp, "OFFSET_NOT_COMMITTED != %s.offset" % resp}
+            extra = [d for d in deps if d not in allowed and not d.startswith("hasattr(")]
+            ok = ok and not extra
             r.check(ok, "%s#reported-value" % hor.qname,
-                    "committed offset recorded from something else than the reply's offset on the arm where an "
-                    "offset is stored", where(hor, n.stmt))
+                    "committed offset is not recorded for exactly the replies whose offset is not the not-committed marker "
+                    "(extra conditions: %s)" % (extra if resp else "?"), where(hor, n.stmt),
+                    "a committed offset of 0 is treated as `nothing committed`: the consumer restarts from the earliest (message 0 "
+                    "redelivered) or latest (messages skipped) position")
             # ---- R6 in the same arm
             r6 = ctx.rule("R6", "resume position = reported committed offset + 1", 1, "A")
             sib = [m for m in ch.nodes if node_assign_value(m, "_fetch_offset") is not None and (
@@ -284,6 +291,10 @@ MUTANTS = [
      "new": "            errback=self._update_committed_offset,\n            errbackArgs=(commit_offset,),", "expect": "C03.R5"},
     {"id": "resume-at-committed", "file": "consumer.py", "old": "self._fetch_offset = response.offset + 1",
      "new": "self._fetch_offset = response.offset", "expect": "C03.R6"},
+    {"id": "committed-zero-is-falsy", "file": "consumer.py",
+     "old": "            if response.offset == OFFSET_NOT_COMMITTED:\n                if self.auto_offset_reset == OFFSET_LATEST:\n                    self._fetch_offset = OFFSET_LATEST\n                else:\n                    self._fetch_offset = OFFSET_EARLIEST\n            else:\n                self._fetch_offset = response.offset + 1\n                self._last_committed_offset = response.offset",
+     "new": "            if response.offset and response.offset != OFFSET_NOT_COMMITTED:\n                self._fetch_offset = response.offset + 1\n                self._last_committed_offset = response.offset\n            elif self.auto_offset_reset == OFFSET_LATEST:\n                self._fetch_offset = OFFSET_LATEST\n            else:\n                self._fetch_offset = OFFSET_EARLIEST",
+     "expect": "C03.R5", "note": "seeded C03-2"},
     {"id": "no-generation", "file": "consumer.py", "old": "            group_generation_id=self.commit_generation_id,\n", "new": "",
      "expect": "C03.R7"},
     {"id": "second-writer", "file": "consumer.py", "old": "        self._processor_d = None  # It has fired, we can clear it\n",
